@@ -150,6 +150,52 @@ def run(chk):
                     v, d = UNDECIDED, e.cause
                 chk.add("C03.from_cofactors", key, v, d, where=where_of(K.method("from_cofactors")))
                 count += 2
+    if chk.tier == "quick":
+        # larger strides of the word regime (n = 9, 10): swap / swap_adjacent / flip with both indices above 5
+        for kind in ("dyn", "static"):
+            K = env.kinds[kind]
+            extra = [("swap_inplace", 9, [6, 7]), ("swap_inplace", 9, [8, 6]), ("swap_inplace", 9, [7, 8]), ("swap_inplace", 10, [7, 9]), ("swap_inplace", 10, [9, 8]), ("swap_inplace", 10, [3, 9]),
+                     ("swap_adjacent_inplace", 9, [6]), ("swap_adjacent_inplace", 9, [7]), ("swap_adjacent_inplace", 10, [7]), ("swap_adjacent_inplace", 10, [8]), ("swap_adjacent", 10, [8]),
+                     ("flip_inplace", 9, [8]), ("flip_inplace", 10, [7]), ("flip_inplace", 10, [9])]
+            for mname, n, idx in extra:
+                key = "%s::%s n=%d idx=%s" % (K.adt, mname, n, idx)
+                try:
+                    v, d, res, after, pc = call_unary(env, kind, n, mname, idx, mname.endswith("inplace"))
+                    if v == PROVED:
+                        exp = S.flip(n, idx[0]) if mname.startswith("flip") else (S.swap(n, idx[0], idx[1]) if len(idx) == 2 else S.swap(n, idx[0], idx[0] + 1))
+                        v, d = compare_bits(res, exp, pc)
+                except Undecided as e:
+                    v, d = UNDECIDED, e.cause
+                chk.add("C03.large-stride", key, v, d, where=where_of(K.method(mname)))
+            for n, i in ((9, 8), (10, 7), (10, 9)):
+                key = "%s::from_cofactors n=%d i=%d" % (K.adt, n, i)
+                try:
+                    it = env.interp()
+                    st = State()
+                    p0 = K.place(st, K.mk(st, n, sym_words(n, "c0")))
+                    p1 = K.place(st, K.mk(st, n, sym_words(n, "c1")))
+                    outs = it.call_body(K.method("from_cofactors"), [p0, p1, usize(i)], st, K.env(n))
+                    o, v, d = single_return(outs)
+                    if o is not None:
+                        v, d = compare_bits(bits_of_table(K.words(it, o.state, o.value), n), S.from_cofactors(n, i), o.pc)
+                except Undecided as e:
+                    v, d = UNDECIDED, e.cause
+                chk.add("C03.large-stride", key, v, d, where=where_of(K.method("from_cofactors")))
+                key = "%s::cofactors n=%d i=%d" % (K.adt, n, i)
+                try:
+                    it = env.interp()
+                    st = State()
+                    p = K.place(st, K.mk(st, n, sym_words(n, "a")))
+                    outs = it.call_body(K.method("cofactors"), [p, usize(i)], st, K.env(n))
+                    o, v, d = single_return(outs)
+                    if o is not None:
+                        c0, c1 = o.value.fields
+                        v, d = compare_bits(bits_of_table(K.words(it, o.state, c0), n), S.cofactor0(n, i), o.pc)
+                        if v == PROVED:
+                            v, d = compare_bits(bits_of_table(K.words(it, o.state, c1), n), S.cofactor1(n, i), o.pc)
+                except Undecided as e:
+                    v, d = UNDECIDED, e.cause
+                chk.add("C03.large-stride", key, v, d, where=where_of(K.method("cofactors")))
     chk.notes["regimes"] = regimes
     chk.notes["n_range"] = [1, nmax]
     chk.notes["mode"] = "tables of symbolic bits; loops unrolled for each concrete n (mode=unrolled)"
